@@ -540,15 +540,15 @@ package codecs
 //
 //@ pure bool av1Packets(ps, n) = forall k :: 0 <= k && k < n ==> ps[k] != nil && fresh(ps[k]) && len(ps[k]) >= 1
 //@ pure bool av1Distinct(ps, n) = forall a, b :: 0 <= a && a < b && b < n ==> !sameobj(ps[a], ps[b])
-//@ spec (*AV1Payloader).Payload>appendOBUPayload
+//@ spec (*AV1Payloader).Payload>(*AV1Payloader).appendOBUPayload
 //@   inline
-//@   loop 0: invariant frag [C08]: remaining == len(obuPayload) && remaining >= 0 && currentPayload == len(payloads) - 1 && currentPayload >= 0 && mtu >= 2 && mtu <= 65535 && fresh(payloads) && toWrite >= 0
+//@   loop 0: invariant frag [C08]: remaining == len(obuPayload) && remaining >= 0 && currentPayload == len(payloads) - 1 && currentPayload >= 0 && mtu >= 2 && mtu <= 65535 && fresh(payloads) && toWrite >= 0 && 0 <= currentOBUCount && currentOBUCount <= obusInPacket + 1
 //@   loop 0: invariant packets [C08]: av1Packets(payloads, len(payloads))
 //@   loop 0: invariant distinct [C08]: av1Distinct(payloads, len(payloads))
 //@   loop 0: decreases remaining
 //@ end
 //@ spec (*AV1Payloader).Payload
-//@   loop 0: invariant walk [C08]: 0 <= offset && offset <= len(payload) && mtu >= 2 && 0 <= obusInPacket && obusInPacket <= 3 && (fresh(payloads) || cap(payloads) == 0) && len(payloads) >= 0 && (currentOBUPayload == nil || fresh(currentOBUPayload))
+//@   loop 0: invariant walk [C08]: 0 <= offset && offset <= len(payload) && mtu >= 2 && 0 <= obusInPacket && obusInPacket <= offset && (fresh(payloads) || cap(payloads) == 0) && len(payloads) >= 0 && (currentOBUPayload == nil || fresh(currentOBUPayload))
 //@   loop 0: invariant packets [C08]: av1Packets(payloads, len(payloads))
 //@   loop 0: invariant distinct [C08]: av1Distinct(payloads, len(payloads))
 //@   loop 0: decreases len(payload) - offset
